@@ -30,8 +30,9 @@ def bounds(tier):
 
 def assume(a, ps, vmax, kinds, tier='thorough', zero=False):
     A = [a[0] == ps]
-    if tier == 'quick':
+    if tier == 'quick' or ps == 8:
         # the inner type's own attributes are exercised by C01/C03; keep size/packed, drop the align attribute here
+        # (thorough: everything free at pointer size 4; at pointer size 8 the quick restriction with the wider numeric range)
         A += [a[6] == 0, z3.ULE(a[11], 3) if ps == 4 else z3.UGE(a[11], 4)]
     A.append(z3.Or(*[z3.And(a[2] == al, z3.Or(*[a[1] == al * m for m in (1, 2, 3)])) for al in (1, 2, 4, 8)]))
     A += [z3.ULT(a[3], vmax)] + ([z3.UGE(a[3], 1)] if not zero else [])
